@@ -33,8 +33,18 @@ var clock = time.Date(2020, 3, 1, 10, 0, 0, 0, time.UTC)
 
 type mapper struct{}
 
+// The schema maps are long-lived, as in a server's schema cache: every call hands out the same two maps. They are part
+// of the state shared between threads (SchemaRoots).
+var (
+	schemaFields = map[string]influxql.DataType{"x": influxql.Float, "y": influxql.Integer, "s": influxql.String}
+	schemaTags   = map[string]struct{}{"host": {}, "region": {}}
+)
+
+// SchemaRoots returns the shared schema objects for the region of pre-existing state.
+func SchemaRoots() []interface{} { return []interface{}{&schemaFields, &schemaTags} }
+
 func (mapper) FieldDimensions(m *influxql.Measurement) (map[string]influxql.DataType, map[string]struct{}, error) {
-	return map[string]influxql.DataType{"x": influxql.Float, "y": influxql.Integer, "s": influxql.String}, map[string]struct{}{"host": {}, "region": {}}, nil
+	return schemaFields, schemaTags, nil
 }
 func (mapper) MapType(m *influxql.Measurement, f string) influxql.DataType {
 	switch f {
@@ -62,6 +72,7 @@ var SharedTexts = []string{
 	"SELECT /x|y/, top(x, host, 2) INTO db.rp.t FROM (SELECT * FROM m WHERE s =~ /^(a|b)$/), db2..m2, /re/ WHERE time > now() - 1h AND host =~ /^srv$/ GROUP BY time(1m), * fill(1.5) ORDER BY time DESC LIMIT 3 TZ('UTC')",
 	"SELECT *, count(*), time FROM m, m2 GROUP BY *",
 	"CREATE CONTINUOUS QUERY cq ON db BEGIN SELECT mean(x) INTO t FROM m WHERE host !~ /^(a|b)$/ GROUP BY time(1h) END",
+	"SELECT *, percentile(x, 90), top(y, host, 2) FROM m WHERE time > now() - 1h GROUP BY host, time(10m, now())",
 }
 
 func SelOf(s influxql.Statement) *influxql.SelectStatement {
